@@ -38,7 +38,8 @@ def generate(ctx):
                      c0={"dt": rng.choice(DTS), "batchsz": rng.randint(1, 3), "synapse": rng.choice(fac.SYNAPSES)})
         elif kind == "reducer":
             d.update(red=rng.choice(["nearest", "cumulative", "event", "passthrough", "ema", "ca"]),
-                     c0={"dt": rng.choice(DTS), "duration": rng.choice([0.0, 1.0, 2.0, 3.0]), "inplace": rng.random() < 0.5})
+                     c0={"dt": rng.choice(DTS), "duration": rng.choice([0.0, 1.0, 2.0, 3.0]), "inplace": rng.random() < 0.5,
+                         "inclusive": rng.random() < 0.5})
         else:
             d.update(neuron=rng.choice(fac.NEURONS), syn=rng.choice(fac.SYNAPSES), c0={"dt": rng.choice(DTS), "batchsz": rng.randint(1, 3)})
         # the assignment sequence (values drawn now so that the descriptor is self-contained)
@@ -54,7 +55,7 @@ def generate(ctx):
                 v = rng.choice([0.0, 1.0, 2.0, 3.0, 4.0, 2.5, 0.7, 1.3, round(rng.uniform(0.0, 5.0), 3)])
             elif k == "duration":
                 v = rng.choice([1.0, 2.0, 3.0, 5.0, 0.0, 2.5, 0.5, round(rng.uniform(0.0, 6.0), 3)])
-            elif k == "inplace":
+            elif k in ("inplace", "inclusive"):
                 v = rng.random() < 0.5
             elif k == "synapse":
                 v = rng.choice(fac.SYNAPSES)
@@ -187,13 +188,14 @@ class _Reducer:
 
     def build(self, c):
         r, dt = self.d["red"], c["dt"]
-        kw = {"duration": c["duration"], "inplace": c["inplace"]}
+        kw = {"duration": c["duration"], "inplace": c["inplace"], "inclusive": bool(c.get("inclusive", False))}
         if r == "nearest":
             return observe.NearestTraceReducer(dt, 5.0, 1.0, 1.0, **kw)
         if r == "cumulative":
             return observe.CumulativeTraceReducer(dt, 5.0, 1.0, 1.0, **kw)
         if r == "event":
-            return observe.EventReducer(dt, lambda x: x > 0.5, "zero", c["duration"], inplace=c["inplace"])
+            return observe.EventReducer(dt, lambda x: x > 0.5, "zero", c["duration"], inclusive=bool(c.get("inclusive", False)),
+                                        inplace=c["inplace"])
         if r == "passthrough":
             return observe.PassthroughReducer(dt, **kw)
         if r == "ema":
@@ -201,10 +203,13 @@ class _Reducer:
         return observe.CAReducer(dt, **kw)
 
     def set(self, o, k, v):
-        setattr(o, k, v)
+        if k == "inclusive":
+            o.data_.inclusive = v      # the record's documented flag: whether the history includes the sample `duration` ago
+        else:
+            setattr(o, k, v)
 
     def observe(self, o):
-        out = {"dt": o.dt, "duration": o.duration, "inplace": o.inplace}
+        out = {"dt": o.dt, "duration": o.duration, "inplace": o.inplace, "inclusive": bool(o.data_.inclusive)}
         if hasattr(o, "decay"):
             out["decay"] = round(float(o.decay), 12)
         return out
@@ -257,7 +262,7 @@ AFFECTS = {
     "neuron": {"dt": ["dt"], "batchsz": ["batchsz", "batchedshape", "voltage_shape", "refrac_shape"], "dtype": ["dtype"]},
     "synapse": {"dt": ["dt"], "delay": ["delay"], "batchsz": ["batchsz", "current_shape"], "inplace": ["inplace"], "dtype": ["dtype"]},
     "connection": {"dt": ["dt", "synapse_dt"], "batchsz": ["batchsz", "synapse_batchsz"], "synapse": ["synapse"], "dtype": ["dtype"]},
-    "reducer": {"dt": ["dt", "decay"], "duration": ["duration"], "inplace": ["inplace"]},
+    "reducer": {"inclusive": ["inclusive"], "dt": ["dt", "decay"], "duration": ["duration"], "inplace": ["inplace"]},
     "layer": {"dt": ["connection_dt", "neuron_dt"], "batchsz": ["connection_batchsz", "neuron_batchsz"]},
 }
 
@@ -272,7 +277,7 @@ def _expect(kind, k, v, d):
         return {"dt": {"dt": v, "synapse_dt": v}, "batchsz": {"batchsz": v, "synapse_batchsz": v}, "synapse": {"synapse": SYNNAME.get(v)},
                 "dtype": {"dtype": "torch.float64"}}[k]
     if kind == "reducer":
-        return {"dt": {"dt": v}, "duration": {"duration": v}, "inplace": {"inplace": v}}[k]
+        return {"dt": {"dt": v}, "duration": {"duration": v}, "inplace": {"inplace": v}, "inclusive": {"inclusive": v}}[k]
     return {"dt": {"connection_dt": v, "neuron_dt": v}, "batchsz": {"connection_batchsz": v, "neuron_batchsz": v}}[k]
 
 
